@@ -29,7 +29,9 @@ import rebench.persistence as pers
 
 IMPORTS = ["Model.DataFile"]
 
-ODD = ["\t", "\n", "\r", "\\", "\\t", "\\n", "\\\\", "é", "€", " ", "a", "b", "%", "=", "{", "}", "'", '"', "#", " ", "\x0b"]
+ODD = ["\t", "\n", "\r", "\\", "\\t", "\\n", "\\\\", "é", "€", " ", "a", "b", "%", "=", "{", "}", "'", '"', "#", " ", "\x0b",
+       # characters at which str.splitlines() (but not text-mode reading) ends a line
+       "\x0c", "\x1c", "\x1d", "\x1e", "\x85", "\u2028", "\u2029"]
 
 
 def gen_text(rng, n=None, alphabet=None):
@@ -82,7 +84,8 @@ def codec_part(chk):
 # ----------------------------------------------------------------------------- (b) histories
 
 FALSY = [0, 0.0, False, "0", "false"]
-SCALARS = [1, 5, 2.5, True, "big", "4", "a b", "x\ty", "-", "é€", "1e3", 1000, "None", "~", "50%", "{x}", "a=b", "\\t"]
+SCALARS = [1, 5, 2.5, True, "big", "4", "a b", "x\ty", "-", "é€", "1e3", 1000, "None", "~", "50%", "{x}", "a=b", "\\t",
+           "a\u2028b", "p\x0cq", "x\x85y\x1d", "v\u2029", "\x1cfs\x1e", "w\x0bt"]
 
 
 def pick_list(rng, pool, kmax=3):
